@@ -194,7 +194,13 @@ class _FuncInline(SiteRewriter):
             arg = self._visit_expr(arg, ctx)
             if isinstance(param.name, NamedId):
                 name = subst.get(param.name, param.name)
-                ctx.stmts.append(Assign(name, param.type, arg, e.loc))
+                bind: Stmt = Assign(name, param.type, arg, e.loc)
+                if ctx.is_ctx_expr and not isinstance(arg, Var | RationalVal | BoolVal | ForeignVal):
+                    # the arguments of a call in a `with e:` header are evaluated
+                    # under `RealContext` like the rest of `e`, not under the
+                    # enclosing context (a variable or a literal rounds nowhere)
+                    bind = ContextStmt(UnderscoreId(), ForeignVal(REAL, None), StmtBlock([bind]), e.loc)
+                ctx.stmts.append(bind)
 
         # bind the return value to a fresh variable and splice into the current block
         t = self.gensym.fresh('t')
